@@ -79,8 +79,13 @@ class ClientConnectionJob(object):
     def denyConnection(self, reason):
         log.warning("client connection was denied: " + reason)
         # return failed handshake
-        self.daemon._handshake(self.csock, denied_reason=reason)
-        self.csock.close()
+        try:
+            self.daemon._handshake(self.csock, denied_reason=reason)
+        except Exception as x:
+            # this runs in the server's accept loop, which must survive a client that is already gone
+            log.warning("error during denied connect/handshake: %s", x)
+        finally:
+            self.csock.close()
 
 
 class Housekeeper(threading.Thread):
